@@ -380,14 +380,21 @@ Fixpoint unregisterParts (t : ptable) (i : nat) (parts : list Z) : ptable :=
 Definition remove_file (fs : list (nat * Z)) (i : nat) (id : Z) : list (nat * Z) :=
   filter (fun e => negb (Nat.eqb (fst e) i && (snd e =? id))) fs.
 
-(* math.Round(d.Seconds()) for d >= 0 *)
-Definition round_seconds (d : Z) : Z := (d + second / 2) / second.
+(* math.Round(d.Round(10us).Seconds()) for d >= 0 (time.Duration.Round rounds half away from
+   zero, as does math.Round) *)
+Definition round_seconds (d : Z) : Z :=
+  let d10 := ((d + 5000) / 10000) * 10000 in
+  (d10 + second / 2) / second.
 
-Fixpoint targetDuration_of (segs : list seg) : Z :=
+Fixpoint targetDuration_max (segs : list seg) : Z :=
   match segs with
   | [] => 0
-  | s :: r => Z.max (round_seconds (seg_dur s)) (targetDuration_of r)
+  | s :: r => Z.max (round_seconds (seg_dur s)) (targetDuration_max r)
   end.
+
+(* targetDuration(): never below 1 ("if ret < 1 { ret = 1 }") *)
+Definition targetDuration_of (segs : list seg) : Z :=
+  let ret := targetDuration_max segs in if ret <? 1 then 1 else ret.
 
 (* muxerStream.rotateSegments; [dur] = nextDTS - startDTS of the segment being closed *)
 Definition stream_rotateSegments (v : variant) (segmentCount : Z) (leading : bool) (i : nat)
